@@ -100,3 +100,30 @@ Lemma refusal_examples :
   cstep fall w_big (OInsert 0 (-1)%Z [SStr 30 [120]]) = (w_big, Rejected EValueError) /\
   cstep fall w_big (OSetItem 0 99%Z (SStr 30 [120])) = (w_big, Rejected EIndexError).
 Proof. repeat split; reflexivity. Qed.
+
+(* ---- identities, text, independence: the hypotheses are satisfiable ---- *)
+From Delb.Tree Require Import AGuard.
+From Delb.Conc Require Import Clone.
+Lemma sample_history_fresh : hist_fresh (abs_world w_big) sample_history = true.
+Proof. vm_compute. reflexivity. Qed.
+Lemma sample_step_structural :
+  run_structural (script fall (OAddFollowing 3 [SStr 20 [120]; SNode 13; SStr 21 [121]])) (abs_world w_big) = true /\
+  run_new_texts (script fall (OAddFollowing 3 [SStr 20 [120]; SNode 13; SStr 21 [121]])) (abs_world w_big)
+  = [(20, [120]); (21, [121])].
+Proof. split; vm_compute; reflexivity. Qed.
+(* clone <y>e</y> (node 9) of w_big, then edit the clone (ids 40..) and the original in turn *)
+Definition ren9 : list (nid * nid) := [(9, 40); (10, 41)].
+Definition after_clone : list (filt * op) :=
+  [(fall, OAppend 40 [SStr 50 [122]]); (fall, OSetContent 41 [81]); (fall, OAddFollowing 41 [STag 51 [116]]);
+   (fall, ODetach 41 false)].
+Definition on_original : list (filt * op) :=
+  [(fall, OAppend 9 [SStr 50 [122]]); (fall, ODetach 9 true); (fall, OMerge 0)].
+Lemma clone_example :
+  exists l, c_clone w_big 9 true ren9 = Some l /\
+            let c := c_clone_step w_big 9 true ren9 in
+            cwf c /\ hist_ok c after_clone = true /\ hist_ok c on_original = true /\
+            (* edits of the clone name no node of the document, edits of the original no node of the clone *)
+            hist_avoids (abs_top (d_root (hd {| d_pro := []; d_root := CEl 0 (KComment []) None no_chain []; d_epi := [] |} (w_docs w_big))))
+                        (abs_world c) after_clone = true /\
+            hist_avoids (abs_loose l) (abs_world c) on_original = true.
+Proof. eexists. split; [reflexivity|]. cbn zeta. repeat split; vm_compute; reflexivity. Qed.
